@@ -28,7 +28,9 @@ Judge(c) ==
         an == SeqSet(c.nodes)
         ae == {<<e[2], e[3]>> : e \in SeqSet(c.edges)}
         ids == {e[1] : e \in SeqSet(c.edges)}
-    IN  (IF an # en \/ Len(c.nodes) # Cardinality(en) THEN {"C20.nodes"} ELSE {})
+    IN  IF "crash" \in DOMAIN c /\ c.crash # "-" THEN {"C20.generate"}       \* the pipeline builds, generate() raised
+        ELSE
+        (IF an # en \/ Len(c.nodes) # Cardinality(en) THEN {"C20.nodes"} ELSE {})
         \cup (IF ae # ee \/ Len(c.edges) # Cardinality(ee) \/ Cardinality(ids) # Len(c.edges)
                  \/ \E e \in ae : e[1] \notin {n[1] : n \in an} \/ e[2] \notin {n[1] : n \in an}
               THEN {"C20.edges"} ELSE {})
